@@ -1,12 +1,16 @@
 #!/bin/bash
-# usage: confirm_round2.sh C04 [C12 ...]  -- confirms /tmp/seed/<id>/SEED2/{1,2,3}; the demo's package is read from WHERE.txt
+# usage: confirm_round2.sh C04 [C12 ...]  -- confirms /tmp/seed/<id>/SEED2/{1,2,3}; the demo's package directory is derived from its package clause
 for id in "$@"; do
  for n in 1 2 3; do
   s=/tmp/seed/$id/SEED2/$n
   [ -f $s/patch.diff ] || continue
-  pkg=$(grep -h -o "go test[^\n]*" $s/demo/WHERE.txt | grep -o -E "\./[a-z/]+|\s\.\s*$|\s\.$" | tail -1 | tr -d ' ')
-  [ -z "$pkg" ] && pkg=.
-  dest=${pkg#./}; [ "$pkg" = "." ] && dest=.
+  f=$(ls $s/demo/*.go | head -1)
+  pk=$(grep -m1 -E "^package " $f | awk '{print $2}' | sed 's/_test$//')
+  case "$pk" in
+   kcache) dest=. ;;
+   client|join|filter|nsname) dest=$pk ;;
+   *) dest=types/$pk ;;
+  esac
   echo "##### $id-r2-$n dest=$dest"
   python3 /verif/tools/confirm_seed.py $s $id-r2-$n --dest "$dest" 2>&1 | tail -16
  done
